@@ -39,6 +39,7 @@ OBLIGATIONS = [
     "Grog.C08.same_namespace_iff",
     "Grog.C08.tee_no_deadlock",
     "Grog.C08.tee_terminates",
+    "Grog.C08.get_does_not_confirm",
 ]
 ASSUMPTIONS = [
     "the remote store never loses an object and a successful put is atomic (S3 PutObject / finalised GCS writer)",
@@ -67,6 +68,33 @@ def fixed_histories():
          {"m": "B", "do": "restore", "targets": [0]}],
     ]
     out = [(ws, targets, h, "fixed-%d" % i) for i, h in enumerate(hs)]
+    # (F) load, then produce the same content again in ONE process: the blob is only in A's local cache (earlier run without
+    # remote); the restore of :x reads it (Cas.Load), the build of :y writes the same digest (Cas.Write must still upload it)
+    big = "".join(chr((i * 13) % 251) for i in range(70000))
+    wss = D(("p", D(("x.txt", F("same content\n")), ("y.txt", F("same content\n")), ("bx.bin", F(big)), ("by.bin", F(big, True)),
+                    ("dx", D(("f", F("same content\n")), ("g", F(big)))), ("dy", D(("h", F("same content\n")), ("k", D(("g", F(big)))))))))
+    ts = [{"pkg": "p", "name": "x", "key": "kx", "outputs": [["file", "x.txt"]]}, {"pkg": "p", "name": "y", "key": "ky", "outputs": [["file", "y.txt"]]},
+          {"pkg": "p", "name": "bx", "key": "kbx", "outputs": [["file", "bx.bin"]]}, {"pkg": "p", "name": "by", "key": "kby", "outputs": [["file", "by.bin"]]},
+          {"pkg": "p", "name": "dx", "key": "kdx", "outputs": [["dir", "dx"]]}, {"pkg": "p", "name": "dy", "key": "kdy", "outputs": [["dir", "dy"]]}]
+    out.append((wss, ts, [{"m": "A", "do": "build-local", "targets": [0]}, {"m": "A", "do": "mixed", "ops": [["restore", 0], ["build", 1]]},
+                          {"m": "B", "do": "restore", "targets": [1]}], "fixed-load-then-write"))
+    out.append((wss, ts, [{"m": "A", "do": "build-local", "targets": [2, 4]}, {"m": "A", "do": "mixed", "ops": [["restore", 4], ["restore", 2], ["build", 5], ["build", 3]]},
+                          {"m": "B", "do": "restore", "targets": [5, 3]}], "fixed-load-then-write-dir"))
+    # a remote Set that failed late leaves the blob local-only as well
+    out.append((wss, ts, [{"m": "A", "do": "build", "targets": [0], "faults": [{"op": "set", "ns": "cas", "nth": 1, "kind": "err-late"}]},
+                          {"m": "A", "do": "build-local", "targets": [0]}, {"m": "A", "do": "mixed", "ops": [["restore", 0], ["build", 1]]},
+                          {"m": "B", "do": "restore", "targets": [1, 0]}], "fixed-load-then-write-after-failed-put"))
+    # (G) a remote read that fails in the middle of a blob, or a consumer that stops early, then a second read of the same key
+    for tgt, nm in ((2, "big-file"), (0, "small-file"), (4, "dir")):
+        out.append((wss, ts, [{"m": "A", "do": "build", "targets": [tgt]},
+                              {"m": "B", "do": "restore", "targets": [tgt], "faults": [{"op": "get", "ns": "cas", "nth": 1 if tgt != 4 else 2, "kind": "err-mid"}]},
+                              {"m": "B", "do": "restore", "targets": [tgt]}, {"m": "C", "do": "mixed", "ops": [["peek", tgt], ["restore", tgt]]},
+                              {"m": "C", "do": "restore", "targets": [tgt]}], "fixed-midstream-" + nm))
+    # (H) a failed remote Get of key K, then a second Get of the same K in the same process (retry / another output with the same blob)
+    out.append((wss, ts, [{"m": "A", "do": "build", "targets": [0, 1]},
+                          {"m": "B", "do": "mixed", "ops": [["restore", 0], ["restore", 0], ["restore", 1]], "faults": [{"op": "get", "ns": "cas", "nth": 1, "kind": "err"}]},
+                          {"m": "C", "do": "mixed", "ops": [["restore", 1], ["restore", 0]], "faults": [{"op": "get", "ns": "target", "nth": 1, "kind": "err"}, {"op": "get", "ns": "cas", "nth": 1, "kind": "err-mid"}]}],
+                "fixed-retry-same-key"))
     # a flat directory (no child directories): two of its blobs cannot be fetched on B (F-errchan: the restore must fail, not hang)
     wsf = D(("p", D(("flat", D(("a", F("1")), ("b", F("2", True)), ("c", F("3")))))))
     tf = [{"pkg": "p", "name": "t0", "key": "kF", "outputs": [["dir", "flat"]]}]
@@ -85,7 +113,7 @@ def fixed_histories():
 
 
 def gen_history(rng, nt):
-    fam = rng.choice(["baseline", "local-first", "set-faults", "get-faults", "interleaved", "random", "random"])
+    fam = rng.choice(["baseline", "local-first", "set-faults", "get-faults", "interleaved", "random", "random", "load-then-write", "midstream"])
     allt = list(range(nt))
 
     def faults(ops, k=None):
@@ -106,6 +134,16 @@ def gen_history(rng, nt):
     elif fam == "get-faults":
         h = [{"m": "A", "do": "build", "targets": allt}, {"m": "B", "do": "restore", "targets": allt, "faults": faults(["get", "get", "exists"])},
              {"m": "B", "do": "restore", "targets": allt}]
+    elif fam == "load-then-write":
+        sub = rng.sample(allt, rng.randint(1, nt))
+        ops = [["restore", t] for t in sub] + [["build", t] for t in allt]
+        if rng.random() < 0.5:
+            rng.shuffle(ops)
+        h = [{"m": "A", "do": "build-local", "targets": sub}, {"m": "A", "do": "mixed", "ops": ops}, {"m": "B", "do": "restore", "targets": allt}]
+    elif fam == "midstream":
+        f = [{"op": "get", "ns": "cas", "nth": rng.choice([1, 1, 2, 3, 0]), "kind": "err-mid"}]
+        h = [{"m": "A", "do": "build", "targets": allt}, {"m": "B", "do": "restore", "targets": allt, "faults": f},
+             {"m": "B", "do": "restore", "targets": allt}, {"m": "C", "do": "mixed", "ops": [[rng.choice(["peek", "restore"]), t] for t in allt] + [["restore", t] for t in allt]}]
     elif fam == "interleaved":
         a, b = allt[: max(1, nt // 2)], allt[max(1, nt // 2):] or allt
         h = [{"m": "A", "do": "build", "targets": a}, {"m": "B", "do": "build", "targets": b}, {"m": "A", "do": "restore", "targets": b},
@@ -113,8 +151,11 @@ def gen_history(rng, nt):
     else:
         h = []
         for _ in range(rng.randint(3, 8)):
-            do = rng.choice(["build", "build", "build-local", "restore", "restore"])
+            do = rng.choice(["build", "build", "build-local", "restore", "restore", "mixed"])
             st = {"m": rng.choice(["A", "A", "B", "C"]), "do": do, "targets": rng.sample(allt, rng.randint(1, nt))}
+            if do == "mixed":
+                st["ops"] = [[rng.choice(["restore", "build", "peek"]), rng.choice(allt)] for _ in range(rng.randint(2, 4))]
+                del st["targets"]
             if do != "build-local" and rng.random() < 0.4:
                 st["faults"] = faults(["set", "get", "exists"])
             h.append(st)
@@ -202,27 +243,32 @@ def run(ctx):
                 ctx.violation("the remote store holds a target result that references a blob the remote store does not hold: " + st["dangling"][0],
                               {"kind": "oracle", "oracle": "closure audit of the remote store", "request": req, "step": st, "family": fam,
                                "remote_keys": x["remote_keys"], "locals": x["locals"], "events": x["events"]}, signature=sig)
+            for mname, bad in (st.get("local_audit") or {}).items():
+                ctx.violation("the local cache of machine %s holds an entry whose content does not match its key: %s" % (mname, bad[0]),
+                              {"kind": "oracle", "oracle": "content audit of the local caches", "request": req, "step": st, "family": fam, "events": x["events"]},
+                              signature="local-cache-corrupt-entry")
             for r in st["results"]:
-                key = st["do"] + ":" + r["outcome"]
+                kind = r.get("kind", st["do"])
+                key = kind + ":" + r["outcome"]
                 stats["outcomes"][key] = stats["outcomes"].get(key, 0) + 1
                 if r["outcome"] == "hang" and not S.confirm_hang(ctx, req, lambda o: any(rr.get("outcome") == "hang" for ss in o.get("steps", []) for rr in ss["results"])):
                     stats["unconfirmed_stalls"] = stats.get("unconfirmed_stalls", 0) + 1
                 elif r["outcome"] == "hang":
                     t = [t for t in targets if t["name"] == r["target"]][0]
-                    in_dir_restore = st["do"] == "restore" and any(o[0] == "dir" for o in t["outputs"])
+                    in_dir_restore = kind == "restore" and any(o[0] == "dir" for o in t["outputs"])
                     ctx.violation("a cache operation through the remote wrapper hangs" + (" (restore of a directory output whose blob cannot be fetched)" if in_dir_restore else ""),
                                   {"kind": "oracle", "oracle": "no hang", "request": req, "step": st, "family": fam},
                                   signature="dir-restore-hangs-on-blob-error" if in_dir_restore else "remote-hang")
-                if st["do"] == "restore" and r["outcome"] == "ok" and not r.get("equal"):
+                if kind == "restore" and r["outcome"] == "ok" and not r.get("equal"):
                     ctx.violation("a machine restored outputs that differ from what was cached", {"kind": "oracle", "oracle": "restored == cached", "request": req, "step": st},
                                   signature="remote-restore-wrong-content")
-                if st["do"] == "restore" and r["outcome"] != "ok" and r["target"] in published and not st_req.get("faults") and not st["dangling"]:
+                if kind == "restore" and r["outcome"] != "ok" and r["target"] in published and not st_req.get("faults") and not st["dangling"]:
                     ctx.violation("a target published by a successful build cannot be restored through the remote cache without any fault: " + r.get("msg", r["outcome"]),
                                   {"kind": "oracle", "oracle": "published => retrievable", "request": req, "step": st, "remote_keys": x["remote_keys"]},
                                   signature="published-not-retrievable")
-                if st["do"] == "build" and r["outcome"] == "ok":
+                if kind == "build" and r["outcome"] == "ok":
                     published.add(r["target"])
-                if st["do"] == "restore" and r["outcome"] == "ok":
+                if kind == "restore" and r["outcome"] == "ok":
                     nontrivial = True
         for e in x["events"]:
             if e["e"] == "get" and e.get("r") == "yes" and not e.get("contentOk", True):
@@ -256,7 +302,7 @@ def run(ctx):
     ctx.coverage["evaluations"] = len(reqs)
     ctx.coverage["traces_validated_against_impl"] = len(replays)
     ctx.coverage["distinct_nontrivial"] = len(distinct)
-    ctx.coverage["rule"] = ("9 targeted histories (incl. the Lean witness of F-remote-skip and remote Set failing after the local tier stored) + generated histories over "
+    ctx.coverage["rule"] = ("17 targeted histories (incl. load-then-write of a local-only digest in one process, mid-stream remote read failures and early-closing consumers followed by a second read) (incl. the Lean witness of F-remote-skip and remote Set failing after the local tier stored) + generated histories over "
                             "machines A,B,C: build with remote cache, build without remote cache (local-only blobs), restore into an emptied workspace; remote faults "
                             "scripted per step on get/set/exists (err, err-mid, err-late = read everything then fail, err-after = stored then fail); workloads of 1-3 "
                             "targets sharing contents; non-trivial = distinct history in which some machine restored outputs successfully and the remote stayed closed")
@@ -298,7 +344,7 @@ def namespaces(ctx, stats):
         if S.unproto(x.get("ws", "")) != want_ws:
             ctx.violation("workspace identity differs from sha256(root)[:16]-basename", {"kind": "correspondence", "correspondence": "GetWorkspaceCachePrefix",
                           "root": r, "impl": x.get("ws"), "expected": want_ws}, found_input=False)
-        mreqs.append({"op": "store.objpath", "bucket": b, "prefix": p, "ws": x.get("ws", ""), "calls": calls})
+        mreqs.append({"op": "store.objpath", "bucket": b, "prefix": p, "ws": S.proto(want_ws), "calls": calls})
     mouts = S.model(ctx, mreqs)
     bad = 0
     for cfg, x, y in zip(cfgs, outs, mouts):
@@ -320,6 +366,31 @@ def namespaces(ctx, stats):
                               (("address" if got else "do not address"), ("differ" if got else "agree")),
                               {"kind": "oracle", "oracle": "same namespace iff same (bucket, trimmed prefix, workspace identity)", "c1": cfgs[i], "c2": cfgs[j],
                                "objects1": outs[i].get("objects"), "objects2": outs[j].get("objects")}, signature="namespace-" + ("collision" if got else "split"))
+    # the same workspace_root string on two machines, on one of which a path component is a symbolic link: same identity, same keys
+    import os
+    base = os.path.join(ctx.scratch("c08-ns"), "host")
+    sym = 0
+    for name in ("ws", S.proto("my repö")):
+        for b, p in (("bkt", "team/cache"), ("bkt", "")):
+            two = S.impl(ctx, [{"op": "store.s3path", "bucket": b, "prefix": p, "root": "", "base": base, "name": name, "layout": lay, "calls": calls}
+                               for lay in ("plain", "symlink")])
+            if not two or any("error" in t for t in two):
+                ctx.violation("namespace driver failed", {"kind": "impl-crash", "impl": two}, found_input=False)
+                continue
+            sym += 1
+            pl, sy = two
+            root = S.unproto(pl.get("root", ""))
+            want_ws = hl.sha256(root.encode()).hexdigest()[:16] + "-" + root.rsplit("/", 1)[1]
+            if pl.get("objects") != sy.get("objects") or pl.get("ws") != sy.get("ws") or pl.get("local_cache_dir_name") != sy.get("local_cache_dir_name") \
+                    or S.unproto(sy.get("ws", "")) != want_ws:
+                ctx.violation("two machines with the same bucket, prefix and workspace_root string address different remote objects when a component of the "
+                              "workspace path is a symbolic link on one of them",
+                              {"kind": "oracle", "oracle": "workspace identity is a function of the workspace_root string", "bucket": b, "prefix": p, "workspace_root": root,
+                               "expected_identity": want_ws, "plain_directory": {k: pl.get(k) for k in ("ws", "local_cache_dir_name", "objects")},
+                               "through_symlink": {k: sy.get(k) for k in ("ws", "local_cache_dir_name", "objects")},
+                               "replay_request": {"op": "store.s3path", "bucket": b, "prefix": p, "name": name, "calls": calls}},
+                              signature="namespace-depends-on-symlinks")
+    stats["namespace_symlink_pairs"] = sym
     stats["namespace_configs"] = len(cfgs)
     stats["namespace_pairs"] = pairs
     stats["namespace_pairs_same"] = same
